@@ -53,8 +53,11 @@ def probes():
                                           T("z", 60, limits={"weeklymax": "1h"}), T("z2", 600, "r1", limits={"dailymax": "1h"})], "reports": [rep]}))
     # two variants of probe 0 that share its window and resolution and differ in ONE calendar input each: a cache kept across
     # projects and keyed by less than everything the calendar depends on shows when they follow probe 0 (or each other)
-    texts.append(render.render({**ps[0], "pwh": [("mon - fri", ["8:00 - 12:00"])]}))
-    texts.append(render.render({**ps[0], "vacations": [("2025-01-07", "2025-01-09")]}))
+    # ... and they call a macro with the SAME call text but different bodies (a cache of expansions kept across parses)
+    mac = lambda body: f"macro work [ {body} ]\n"  # noqa: E731
+    extra = lambda eff: {"tasks": ps[0]["tasks"] + [{"id": "mw", "raw": ["${work r2}"]}]}  # noqa: E731
+    texts.append(mac("effort 2h allocate ${1}") + render.render({**ps[0], **extra(0), "pwh": [("mon - fri", ["8:00 - 12:00"])]}))
+    texts.append(mac("effort 5h allocate ${1} priority 900") + render.render({**ps[0], **extra(0), "vacations": [("2025-01-07", "2025-01-09")]}))
     return texts
 
 
